@@ -59,6 +59,10 @@
         out.push("max sum((v, i) in enumerate(vals)) { v * x_i }\ns.t.\n    sum((w, i) in enumerate(ws)) { w * x_i } <= cap\nwhere\n    let ws = [10, 60, 30]\n    let vals = [1, 10, 15]\n    let cap = 62\ndefine\n    x_i as Boolean for i in 0..len(ws)".to_string());
         out.push("min a - (b - c)\ns.t.\n    c1: a - (b + c) >= -3\n    c1: a / (2 * 4) <= 1\ndefine\n    a as Real\n    b as IntegerRange(-2, 3)\n    c as NonNegativeReal(0, 4)".to_string());
         out.push("min abs{ a - k } + z\ns.t.\n    z >= a - 2\n    z >= -a\n    k <= 3\ndefine\n    a as Real(-10, 10)\n    k as IntegerRange(0, 5)\n    z as NonNegativeReal".to_string());
+        // every declaration shape, several variables per shape (the renderer groups variables by their printed kind)
+        out.push("min x + y + u + v + w + t\ns.t.\n    r1: x + y + u >= 1\n    r2: v + w + t <= 40\ndefine\n    x as NonNegativeReal(2, Infinity)\n    y as NonNegativeReal\n    u as NonNegativeReal(0.5, 8)\n    v as Real(2, Infinity)\n    w as Real(-Infinity, 3)\n    t as Real".to_string());
+        out.push("max x - y\ns.t.\n    x - y <= 7\n    x + y >= -50\ndefine\n    x, y as NonNegativeReal(1.5, Infinity)".to_string());
+        out.push("max p + i + j\ns.t.\n    p + i + j <= 9\ndefine\n    p as Boolean\n    i as IntegerRange(-3, 3)\n    j as IntegerRange(0, 1)".to_string());
         out
     }
     #[test]
